@@ -216,7 +216,7 @@ Proof.
   unfold xrun, run. rewrite xrun_trace, run_trace, E; auto. apply Inv_init.
 Qed.
 
-(* --- code as it is, beside the two new selectors: complete, no exception --- *)
+(* --- historic tree (before 6da44fb / afd312c), beside the two selectors: complete, no exception --- *)
 
 Theorem xcomplete_no_raise_partial : forall X h,
   names_ok X = true -> fix_iv X = false -> cap_asis_or_none X -> repaired (base X) ->
@@ -291,13 +291,13 @@ Proof.
 Qed.
 
 (* ====================================================================== *)
-(* the two new findings on the code as it is: witnesses *)
+(* the two findings F4cap / F4iv on the historic tree (before 6da44fb / afd312c): witnesses *)
 
 Definition cfg_rep (l g : bool) (w : nat) (rmax : bool) : config := mkConfig l g w rmax true true true.
 
-(* the tree as it is: F4 i-iii repaired, F4cap and F4iv not *)
+(* HISTORIC tree (between 141de51 and 6da44fb): F4 i-iii repaired, F4cap and F4iv not; no code implements it any more *)
 Definition x_now (cfg : config) (mt : option nat) : xconfig := mkX cfg mt false false true true true true.
-(* both proposed repairs applied *)
+(* the CURRENT tree (/repo HEAD): both repairs are in (6da44fb, afd312c) *)
 Definition x_rep (cfg : config) (mt : option nat) : xconfig := mkX cfg mt true true true true true true.
 
 (* three animals in the first frame, max_tracks = 1 *)
@@ -310,7 +310,7 @@ Lemma wit_cap_rep : forall g w r,
   xrun (x_rep (cfg_rep true g w r) (Some 1)) wit_cap = [Ok [(10, Some 0); (11, None); (12, None)]].
 Proof. intros; reflexivity. Qed.
 
-(* max_tracks = 1 and two animals: the code as it is hands out ids 0 and 1 — two tracks *)
+(* max_tracks = 1 and two animals: the historic code handed out ids 0 and 1 — two tracks *)
 Lemma wit_cap_off_by_one : forall g w r,
   xrun (x_now (cfg_rep true g w r) (Some 1)) [ ([(10, true); (11, true)], [], AFail) ]
   = [Ok [(10, Some 0); (11, Some 1)]].
@@ -746,7 +746,7 @@ Proof.
 Qed.
 
 (* ====================================================================== *)
-(* clause (b) on the tree as it is, for every max_tracks: a call either is the
+(* clause (b) on the historic tree, for every max_tracks: a call either is the
    call of Tracker.v's model, or it raises "Exceeding max tracks" *)
 
 Lemma site_cases : forall X m want tids, cap_asis_or_none X ->
@@ -836,7 +836,7 @@ Qed.
 (* ====================================================================== *)
 (* exactness of the two selectors *)
 
-(* the selector of F4cap is exact: on the tree as it is (F4 i-iii repaired, valid
+(* the selector of F4cap is exact: on the historic tree (F4 i-iii repaired, valid
    names) a call raises "Exceeding max tracks" if and only if the selector fires *)
 Lemma add_new_x_fires : forall X m want tids k, length want = length tids ->
   cap_of X = Some k -> fix_cap X = false ->
